@@ -9,6 +9,15 @@
 // and value, equal trees, nothing outside the view's directory read or
 // changed, changes visible through every other actor, per-view setters do not
 // leak into other actors.
+//
+// Views are also created DURING a history: "V = receiver.Sub(spelling)" is a
+// call of the alphabet (receiver = parent or a view; spelling = absolute clean,
+// absolute with "." / "..", relative to the receiver's working directory), and
+// every view that comes out is probed for independence of user, umask and
+// working directory (system.go: stepSub, probeIndependence). The directories
+// views are rooted at get, besides 0700, modes that refuse exactly one of
+// search, write, read to the view's user, and the operands of every view
+// include several spellings of the view's own root (ops.go: actorSpec).
 package main
 
 import (
@@ -291,7 +300,10 @@ func main() {
 			"evaluations": trans, "distinct_nontrivial": len(outcomes),
 			"rule": "breadth-first enumeration of every history of length <= bound over the alphabet (calls through parent, view /p, nested view /p/q" +
 				map[bool]string{true: ", view /", false: ""}[*tier == "thorough"] +
-				"; absolute, dot-dot and relative operands; SetUser/SetUMask/Chdir per view; parent-side rename/removal of view roots), each executed on the real MemFS and in lock-step on a twin parent with prefixed paths; " +
+				"; absolute, dot-dot and relative operands, the view's own root spelled '/', '/.', '/q/..', '/..', '..'; SetUser/SetUMask/Chdir per view; parent-side rename/removal of view roots; " +
+				"Chmod of the directories views are rooted at to 0700 and (full alphabet) 0766/0755/0733, through the parent and through the view; " +
+				"re-creation of every view by 'V = receiver.Sub(spelling)' from the parent and from a view, spellings absolute clean, absolute with '.' and '..', and '.', '..', name relative to the receiver's working directory, " +
+				"followed by an independence probe: SetUMask, SetUser and Chdir applied to the new view and to its receiver, User/UMask/Getwd of all other actors compared), each executed on the real MemFS and in lock-step on a twin parent with prefixed paths; " +
 				"distinct_nontrivial = distinct (actor kind, call, twin outcome kind) classes observed on transitions",
 			"samples": samples, "outcome_class_samples": oc,
 			"exhaustive": exh, "bound": "histories of length: " + strings.Join(bounds, "; "),
@@ -304,9 +316,12 @@ func main() {
 			"relative operands before the first successful Chdir through the view are judged only on 'nothing outside dir is read or changed'",
 			"after the view's root directory has been renamed or removed (through any actor) the property is silent: only no panic/deadlock and no change outside the directory that now holds the view's root node are required; in addition, once the root node is no longer reachable from the parent's root (removed, or below a removed directory) nothing new can be created through the view (a removed directory accepts no entry)",
 			"Remove/RemoveAll/Rename whose operand resolves to the view's own root act on dir's entry in dir's parent, i.e. outside dir; both the parent's behaviour and a root that refuses or is emptied and kept are accepted there: only no panic/deadlock and no change outside dir are required",
-			"signature field viewroot tells whether the acting (or observing) non-admin user has search permission on the view's root directory and on the directories above it, which the parent checks while walking the prefixed path and a view never does",
+			"signature field viewroot tells whether the acting (or observing) non-admin user has search permission on the view's root directory and on the directories above it, which the parent checks while walking the prefixed path and a view never does; when every operand of the call resolves to the view's root itself the parent does not search that directory to reach it (it checks the permission the call needs on its target): the class is root-unsearchable-operand then, which no known finding covers",
+			"'V = receiver.Sub(spelling)' is judged against Sub of the twin parent on the prefixed path (outcome, error path), on where the new root is (injected VerifRootIs), on the new view starting with the receiver's user, umask and working directory (copied by value, as the anchors describe), and on the independence probe; it is a no-op when the receiver is a view whose root was renamed or removed, and when the spelling is relative and the receiver is a view whose working directory was not yet set through it",
+			"the independence probe uses the public setters and puts the previous values back (SetUMask, SetUser, SetCurDir); Chdir is probed with '/' or, when that is the current directory, with the first directory listed in '/' (not probed when there is none or Chdir is refused)",
+			"the modes enumerated for a view's root differ from 0777 in the group and others classes only (the view roots of the start state belong to the administrator, the non-admin users u1 and u2 are 'others' there); a refusal to the owner class arises only where a history lets a non-admin user create the directory a view is then rooted at",
 			"FileInfo.Name() of the view's root is not compared (a root has no name inside its own namespace); mtimes and file ids are not compared",
-			"state key = injected node-graph dump of the parent (VerifDump: names, types, modes, owners, link classes, bytes) + User/UMask/Getwd of every actor + chdir-done flag + location of every view root",
+			"state key = injected node-graph dump of the parent (VerifDump: names, types, modes, owners, link classes, bytes) + User/UMask/Getwd of every actor + chdir-done flag + directory and location of every view root; a Sub step always rebuilds the instance",
 			"symlinks are outside the property and not in the alphabet; Linux-typed MemFS only",
 		},
 		Violations: rep.NewCount(),
